@@ -17,6 +17,7 @@ REQUIRED_COUNTERS = ["episodes", "c02_step_events", "c02_batches_with_padding>=3
 MIN_NONTRIVIAL = {"quick": 300, "thorough": 5000}
 WORKERS = {"quick": 12, "thorough": 16}
 BUDGET_S = {"quick": 400, "thorough": 3000}
+THOROUGH_ROUNDS = 2
 
 
 def cases(tier, seed):
